@@ -68,6 +68,8 @@ pub fn run(o: &mut Out, tier: &str, seed: u64) {
         check(o, &mut r, &vec![VarInt(v), VarInt(v / 2)], "vec_varint", "boundary"); } }
     for len in [0usize, 1, 127, 128, 129, 16383, 16384, 16385] { let v: Vec<Key> = gen::keys(&mut r, len.min(if tier == "thorough" { 20000 } else { 300 })); check(o, &mut r, &v, "vec_key", "boundary");
         let e = RawExtraField(r.bytes(len)); check(o, &mut r, &e, "vec_u8", "boundary"); }
+    for st in ["", "crypto", "h\u{e9}llo", "\u{1f980}\u{1f980}", "\u{3b2}eta \u{2211} sum"] { check(o, &mut r, &st.to_string(), "string", "string"); }
+    for len in [126usize, 127, 128, 129, 16383, 16384] { let st: String = (0..len).map(|i| if i % 5 == 0 { '\u{e9}' } else { 'x' }).collect(); check(o, &mut r, &st, "string", "string"); }
     let hh = Hash(r.arr32()); check(o, &mut r, &hh, "key", "fixed");
     // the BulletproofPlus proof count is written as one raw byte: counts above 255 cannot round-trip (known finding)
     for n in [0usize, 1, 2, 127, 128, 200, 255, 256, 257, 300] { o.op(format!("c02_bpp_count {}", n), true); }
